@@ -2,8 +2,8 @@
 (* C03: logging failures never block, signal or abort the exec -- as a monitor over the system-call     *)
 (* stream of one wrapped exec call (recorded with strace between the harness's ENTER / LEAVE markers,    *)
 (* with one call made to fail by injection, or with a sink in a bad state).  The monitor is the contract: *)
-(*   - every socket the library creates is non-blocking and close-on-exec; every send carries             *)
-(*     MSG_DONTWAIT and MSG_NOSIGNAL (so no sink can block the caller or raise SIGPIPE);                  *)
+(*   - no send can block: the socket is non-blocking or the send carries MSG_DONTWAIT; a send on a        *)
+(*     connection-oriented socket carries MSG_NOSIGNAL (so no sink can block the caller or raise SIGPIPE); *)
 (*   - no signal is delivered between ENTER and LEAVE;                                                   *)
 (*   - the real exec is attempted exactly once, with the caller's arguments, after every descriptor the   *)
 (*     library opened during the call has been closed again (a failed connect must not leak its socket);  *)
@@ -11,31 +11,32 @@
 (* Lines that break a rule are collected in `bad` with a reason, all lines are consumed.                  *)
 EXTENDS Integers, Sequences, FiniteSets, TLC, Json, IOUtils
 T == ndJsonDeserialize(IOEnv.TRACE)
-VARIABLES l, phase, fds, execs, bad
-vars == <<l, phase, fds, execs, bad>>
-Init == l = 1 /\ phase = "idle" /\ fds = {} /\ execs = 0 /\ bad = {}
+VARIABLES l, phase, fds, nb, execs, bad
+vars == <<l, phase, fds, nb, execs, bad>>
+Init == l = 1 /\ phase = "idle" /\ fds = {} /\ nb = {} /\ execs = 0 /\ bad = {}
 Flag(code) == bad' = bad \cup {<<l, code>>}
 Step(r) ==
-    CASE r.e = "begin"  -> phase' = "idle" /\ fds' = {} /\ execs' = 0 /\ UNCHANGED bad
-      [] r.e = "enter"  -> phase' = "incall" /\ UNCHANGED <<fds, execs, bad>>
-      [] r.e = "open"   -> fds' = (IF r.ok /\ phase = "incall" THEN fds \cup {r.fd} ELSE fds) /\ UNCHANGED <<phase, execs, bad>>
+    CASE r.e = "begin"  -> phase' = "idle" /\ fds' = {} /\ nb' = {} /\ execs' = 0 /\ UNCHANGED bad
+      [] r.e = "enter"  -> phase' = "incall" /\ UNCHANGED <<fds, nb, execs, bad>>
+      [] r.e = "open"   -> fds' = (IF r.ok /\ phase = "incall" THEN fds \cup {r.fd} ELSE fds) /\ UNCHANGED <<phase, nb, execs, bad>>
       [] r.e = "socket" -> /\ fds' = (IF r.ok /\ phase = "incall" THEN fds \cup {r.fd} ELSE fds)
-                           /\ IF phase = "incall" /\ ~(r.nonblock /\ r.cloexec) THEN Flag("blocking-or-inheritable-socket") ELSE UNCHANGED bad
-                           /\ UNCHANGED <<phase, execs>>
-      [] r.e = "send"   -> /\ IF phase = "incall" /\ ~(r.dontwait /\ r.nosignal) THEN Flag("send-may-block-or-signal") ELSE UNCHANGED bad
-                           /\ UNCHANGED <<phase, fds, execs>>
-      [] r.e = "close"  -> fds' = fds \ {r.fd} /\ UNCHANGED <<phase, execs, bad>>
-      [] r.e = "signal" -> (IF phase \in {"incall", "execd"} THEN Flag("signal") ELSE UNCHANGED bad) /\ UNCHANGED <<phase, fds, execs>>
+                           /\ nb' = (IF r.ok /\ r.nonblock THEN nb \cup {r.fd} ELSE nb \ {r.fd})
+                           /\ UNCHANGED <<phase, execs, bad>>
+      [] r.e = "send"   -> /\ IF phase = "incall" /\ ~(r.dontwait \/ r.fd \in nb) THEN Flag("send-may-block")
+                              ELSE IF phase = "incall" /\ r.stream /\ ~r.nosignal THEN Flag("send-may-raise-sigpipe") ELSE UNCHANGED bad
+                           /\ UNCHANGED <<phase, fds, nb, execs>>
+      [] r.e = "close"  -> fds' = fds \ {r.fd} /\ nb' = nb \ {r.fd} /\ UNCHANGED <<phase, execs, bad>>
+      [] r.e = "signal" -> (IF phase \in {"incall", "execd"} THEN Flag("signal") ELSE UNCHANGED bad) /\ UNCHANGED <<phase, fds, nb, execs>>
       [] r.e = "exec"   -> /\ execs' = execs + 1 /\ phase' = "execd"
                            /\ IF phase # "incall" \/ execs >= 1 THEN Flag("exec-count")
                               ELSE IF ~r.args_ok THEN Flag("exec-args")
                               ELSE IF fds # {} THEN Flag("descriptor-left-open")
                               ELSE UNCHANGED bad
-                           /\ UNCHANGED fds
-      [] r.e = "leave"  -> /\ phase' = "returned" /\ (IF phase # "execd" THEN Flag("no-exec-before-return") ELSE UNCHANGED bad) /\ UNCHANGED <<fds, execs>>
+                           /\ UNCHANGED <<fds, nb>>
+      [] r.e = "leave"  -> /\ phase' = "returned" /\ (IF phase # "execd" THEN Flag("no-exec-before-return") ELSE UNCHANGED bad) /\ UNCHANGED <<fds, nb, execs>>
       [] r.e = "end"    -> /\ (IF phase # "returned" \/ r.status # "ok" \/ ~r.result_ok THEN Flag("did-not-complete") ELSE UNCHANGED bad)
-                           /\ UNCHANGED <<phase, fds, execs>>
-      [] OTHER -> UNCHANGED <<phase, fds, execs, bad>>
+                           /\ UNCHANGED <<phase, fds, nb, execs>>
+      [] OTHER -> UNCHANGED <<phase, fds, nb, execs, bad>>
 Next == l <= Len(T) /\ Step(T[l]) /\ l' = l + 1
 Spec == Init /\ [][Next]_vars
 Report == l = Len(T) + 1 => PrintT(<<"OUT", ToJson([bad |-> bad, consumed |-> l - 1])>>)
